@@ -85,6 +85,8 @@ pub fn reset() {
         CHILD_RETURNED_FROM_EXIT = false;
         EXIT_CHECK = None;
         PATHLOG_LEN = 0;
+        DENTS_SRC = core::ptr::null();
+        DENTS_LEN = 0;
     }
 }
 
@@ -418,6 +420,20 @@ unsafe fn log_path(ptr: usize, ret: usize) {
     }
 }
 
+// ---- directory stream (getdents64) -------------------------------------------------------------------
+/// bytes the next GETDENTS64 call delivers (set by the harness: a well-formed record sequence);
+/// consumed by the first call, later calls return 0 (end of directory)
+pub static mut DENTS_SRC: *const u8 = core::ptr::null();
+pub static mut DENTS_LEN: usize = 0;
+pub const MODE_DENTS: u32 = 128;
+
+pub fn set_dents(src: *const u8, len: usize) {
+    unsafe {
+        DENTS_SRC = src;
+        DENTS_LEN = len;
+    }
+}
+
 // ---- dispatch -------------------------------------------------------------------------------------
 fn creates_fd(n: usize) -> bool {
     n == nr::OPEN
@@ -559,6 +575,16 @@ pub unsafe fn dispatch(n: usize, args: [usize; 7], nargs: u8) -> usize {
         ret = 0;
         #[cfg(not(kani))]
         std::process::exit(99);
+    } else if mode & MODE_DENTS != 0 && n == nr::GETDENTS64 {
+        let out = args[1] as *mut u8;
+        let k = if DENTS_LEN <= args[2] { DENTS_LEN } else { 0 };
+        let mut i = 0;
+        while i < k {
+            *out.add(i) = *DENTS_SRC.add(i);
+            i += 1;
+        }
+        DENTS_LEN = 0;
+        ret = k;
     } else if mode & MODE_PATHLOG != 0 && (n == nr::MKDIR || n == nr::MKDIRAT) {
         let r = choose_zero_or_err();
         let p = if n == nr::MKDIRAT { args[1] } else { args[0] };
